@@ -161,6 +161,24 @@ func compare19(c *core.Ctx, mk func() op19, mkSplit splitOp, what string) {
 	if se := stmtEvents(dryEvents); len(se) > 0 {
 		add("Session{DryRun}: %d statement events reached the driver, first: %s", len(se), se[0].String())
 	}
+	// (a') DryRun switched on by a scope that hands back a dry-run session: only the executing instance sees the flag
+	{
+		h19.Clock.Reset()
+		marks := h19.Rec.Mark()
+		drys, _ := mk()(h19.DB.Scopes(func(d *gorm.DB) *gorm.DB { return d.Session(&gorm.Session{DryRun: true}) }).Session(&gorm.Session{}))
+		if se := stmtEvents(h19.Rec.Since(marks)); len(se) > 0 {
+			add("Scopes(-> Session{DryRun}): %d statement events reached the driver, first: %s", len(se), se[0].String())
+			if _, err := h19.SQL.Exec(seed19); err != nil {
+				panic(err)
+			}
+		} else if rowOnly := what == "extra/Row" || what == "extra/RawRow" || what == "extra/TableRow"; drys.sql != dry.sql && !dry.noMain && !rowOnly {
+			// (Row() hands back no handle: what the harness reads is the chain value it called Row() on, which is not the
+			// instance that executed when a scope handed back a session - nothing is exposed, nothing to compare)
+			add("DryRun through a scope that returns Session{DryRun} exposes a different statement:\n  scope  : %s\n  session: %s", drys.sql, dry.sql)
+		} else if a, b := strings.Join(renderVars(drys.vars), ", "), strings.Join(renderVars(dry.vars), ", "); a != b && !dry.noMain && !rowOnly {
+			add("DryRun through a scope that returns Session{DryRun} exposes other bound values:\n  scope  : [%s]\n  session: [%s]", a, b)
+		}
+	}
 	// (b) config-level DryRun
 	h19cfg.Clock.Reset()
 	markc := h19cfg.Rec.Mark()
